@@ -209,9 +209,25 @@ func TestReplayLockOrder(t *testing.T) { vt.Replay(t, "lockorder", execLockOrder
 func TestPropLockOrderForced(t *testing.T) {
 	rec := vt.R()
 	got := map[bool]bool{}
-	for trial := 1; trial <= 40; trial++ {
+	gotCommit := false
+	for trial := 1; trial <= 60; trial++ {
 		rec.Eval()
 		failReader := trial%2 == 0
+		if trial%3 == 0 && !gotCommit {
+			ok, err := forcedCommitCycle()
+			if err != nil {
+				c := LockOrderCase{CacheLimit: -1, ParkAt: 0, Prefix: 3, Batch: 2, HoldMs: 1, SecondKind: "vamana"}
+				p := vt.WriteReplay("lockorder", c, err)
+				rec.Violation("lockorderforced", p, err.Error())
+				t.Fatalf("%v", err)
+			}
+			if ok {
+				gotCommit = true
+				rec.Count("forced_commit_cycle_obtained", 1)
+				rec.NonTrivial("forced-commit")
+			}
+			continue
+		}
 		obtained, err := forcedLockOrder(failReader)
 		if err != nil {
 			c := LockOrderCase{CacheLimit: 1 << 30, ParkAt: 3, Prefix: 3, Batch: 2, HoldMs: 1, SecondKind: "vamana"}
@@ -224,7 +240,7 @@ func TestPropLockOrderForced(t *testing.T) {
 			rec.NonTrivial(fmt.Sprintf("forced-%v", failReader))
 			rec.Max("forced_lock_order_trials", int64(trial))
 			got[failReader] = true
-			if got[true] && got[false] {
+			if got[true] && got[false] && gotCommit {
 				return
 			}
 		}
@@ -412,4 +428,142 @@ func goroutineStatusOf(goid int64) string {
 
 func isLockWait(status string) bool {
 	return strings.HasPrefix(status, "sync.Mutex.Lock") || strings.HasPrefix(status, "sync.RWMutex.Lock") || strings.HasPrefix(status, "sync.RWMutex.RLock") || strings.HasPrefix(status, "semacquire")
+}
+
+// forcedCommitCycle: no search takes part. A write batch has committed its storage transaction and has not
+// yet committed its cache transaction (it still holds the write lock of the flat index's cache); the next
+// batch, which also feeds a second vector index without a cache, arrives: its goroutine for the flat index
+// waits for that lock holding the transaction's mutex, its goroutine for the second index holds the
+// manager's lock and waits for the transaction's mutex; then the first batch goes on to commit its cache
+// transaction, which needs the manager's lock.
+func forcedCommitCycle() (obtained bool, err error) {
+	dir, cleanup := drive.CaseDir()
+	path := filepath.Join(dir, "sharddb.bbolt")
+	schema := models.IndexSchema{gen.PFlat: {Type: models.IndexTypeVectorFlat, VectorFlat: &models.IndexVectorFlatParameters{VectorSize: 2, DistanceMetric: models.DistanceEuclidean}},
+		"second": {Type: models.IndexTypeVectorVamana, VectorVamana: &models.IndexVectorVamanaParameters{VectorSize: 2, DistanceMetric: models.DistanceEuclidean, SearchSize: 75, DegreeBound: 64, Alpha: 1.2}}}
+	s, oerr := drive.Open(path, schema, 1<<20, drive.Manager(-1))
+	if oerr != nil {
+		cleanup()
+		return false, oerr
+	}
+	stuck := false
+	defer func() {
+		cache.VerifLookupFn.Store(nil)
+		s.Proxy.SetHooks(nil)
+		if !stuck {
+			s.Close()
+			cleanup()
+		}
+	}()
+	pt := func(i int, both bool) model.Point {
+		var id uuid.UUID
+		id[0], id[6], id[8], id[15] = byte(i), 0x40, 0x80, 1
+		d := model.Doc{gen.PFlat: []float32{float32(i), 1}}
+		if both {
+			d["second"] = []float32{1, float32(i)}
+		}
+		return model.Point{Id: id, Doc: d}
+	}
+	if err := s.Insert([]model.Point{pt(1, false), pt(2, false)}); err != nil {
+		return false, err
+	}
+	inStack := func(what string) bool {
+		buf := make([]byte, 1<<16)
+		return strings.Contains(string(buf[:runtime.Stack(buf, false)]), what)
+	}
+	t0Parked, t0Go := make(chan struct{}), make(chan struct{})
+	g1Parked, g1Go := make(chan struct{}), make(chan struct{})
+	g2Parked, g2Go := make(chan struct{}), make(chan struct{})
+	var t0Once, g1Once, g2Once sync.Once
+	var armT0, armT1 atomic.Bool
+	var g1Goid atomic.Int64
+	s.Proxy.SetHooks(&drive.Hooks{
+		TxEnd: func(tx *drive.ProxyTx, err error) {
+			if tx.Write && armT0.Load() {
+				t0Once.Do(func() { close(t0Parked); <-t0Go })
+			}
+		},
+		Op: func(tx *drive.ProxyTx, kind string, n int64) {
+			if tx.Write && armT1.Load() && inStack("vamana.NewIndexVamana") && inStack("cache.(*Transaction).With") {
+				g2Once.Do(func() { close(g2Parked); <-g2Go })
+			}
+		}})
+	lookup := func(name string, readOnly bool) {
+		if armT1.Load() && !readOnly && strings.HasSuffix(name, "index/vectorFlat/"+gen.PFlat) {
+			g1Once.Do(func() { g1Goid.Store(drive.Goid()); close(g1Parked); <-g1Go })
+		}
+	}
+	cache.VerifLookupFn.Store(&lookup)
+	firstDone, secondDone := make(chan error, 1), make(chan error, 1)
+	armT0.Store(true)
+	go func() { firstDone <- s.Insert([]model.Point{pt(10, false), pt(11, false)}) }()
+	select {
+	case <-t0Parked:
+	case <-time.After(3 * time.Second):
+		stuck = true
+		return false, fmt.Errorf("harness: the first batch did not reach the end of its storage transaction")
+	}
+	armT0.Store(false)
+	armT1.Store(true)
+	go func() { secondDone <- s.Insert([]model.Point{pt(100, true), pt(101, true)}) }()
+	got1, got2 := false, false
+	timeout := time.After(1500 * time.Millisecond)
+	for !(got1 && got2) && timeout != nil {
+		select {
+		case <-g1Parked:
+			got1, g1Parked = true, nil
+		case <-g2Parked:
+			got2, g2Parked = true, nil
+		case <-timeout:
+			timeout = nil
+		}
+	}
+	if !(got1 && got2) {
+		closeOnce(g1Go)
+		closeOnce(g2Go)
+		closeOnce(t0Go)
+		for k := 0; k < 2; k++ {
+			select {
+			case <-firstDone:
+			case <-secondDone:
+			case <-time.After(5 * time.Second):
+				stuck = true
+				return false, fmt.Errorf("two write batches do not both return although no order was forced")
+			}
+		}
+		return false, nil
+	}
+	close(g1Go)
+	waiting := false
+	for i := 0; i < 2000 && !waiting; i++ {
+		time.Sleep(500 * time.Microsecond)
+		if isLockWait(goroutineStatusOf(g1Goid.Load())) {
+			waiting = true
+		}
+	}
+	if !waiting {
+		closeOnce(g2Go)
+		closeOnce(t0Go)
+		stuck = true
+		return false, fmt.Errorf("harness: the second batch's goroutine for the flat index does not wait for the cache lock")
+	}
+	close(g2Go)
+	time.Sleep(20 * time.Millisecond)
+	close(t0Go)
+	for k := 0; k < 2; k++ {
+		select {
+		case err := <-firstDone:
+			if err != nil {
+				return true, fmt.Errorf("the first batch failed: %v", err)
+			}
+		case err := <-secondDone:
+			if err != nil {
+				return true, fmt.Errorf("the second batch failed: %v", err)
+			}
+		case <-time.After(4 * time.Second):
+			stuck = true
+			return true, fmt.Errorf("deadlock inside the cache manager between two write batches: the first has committed its storage transaction and goes on to commit its cache transaction (it needs the manager's lock while it holds the flat index's cache), the second batch's goroutine for the flat index holds the transaction's mutex and waits for that cache, its goroutine for the graph index holds the manager's lock and waits for the transaction's mutex; neither batch returns and the manager's lock is held for good")
+		}
+	}
+	return true, nil
 }
